@@ -26,6 +26,10 @@ pub fn run(t: &[&str]) -> String {
             d.set_transform(&Transform::scale(0.0, 0.0));
             d.push_clip_rect(IntRect::new(IntPoint::new(5, 5), IntPoint::new(1, 1)));
         }
+        // an open layer (with or without the clip above limiting its size) is ignored too: the block lands on the surface
+        if idn % 4 == 3 {
+            d.push_layer(0.5);
+        }
         match kind {
             "copy" => d.copy_surface(&s, rect, dst),
             "blend" => d.blend_surface(&s, rect, dst, MODES[param.parse::<usize>().unwrap()]),
